@@ -4,6 +4,7 @@ From K Require Import Lib.Types Model.Machine Model.Alu Model.Exec Spec.ISA Proo
 From K Require Import Model.Bus Model.Cost Model.Addressing Spec.MemMap Proofs.RegProofs Proofs.StackProofs Proofs.MemProofs Proofs.CtlProofs.
 From K Require Import Proofs.StepProofs Proofs.StepRefines Proofs.StepRefinesCtl.
 From K Require Import Proofs.StepRefines2.
+From K Require Import Proofs.StepRefines4.
 Open Scope Z_scope.
 
 (* the 16 x 256 condition table *)
@@ -195,6 +196,52 @@ Theorem step_jsr_ind :
     step s = Ok n (set_opc (pc s) s').
 Proof. exact step_jsr_ind_proof. Qed.
 
+(* Bcc d:16 - both instruction words in memory, any state; the operating PC ends at the second word *)
+Theorem step_bcc16 :
+  forall s w d w2 w3 w4 cc disp n s',
+    cpu_ok s -> bus_bytes_ok s -> fault s = false -> pc s mod 2 = 0 -> 0 <= pc s -> pc s + 4 < 4294967296 ->
+    mem_read SW s (pc s) = Some w -> mem_read SW s (pc s + 2) = Some d ->
+    decode_ref w d w2 w3 w4 = Some (IBcc cc disp, 4) ->
+    (cond_ref cc (ccr s) = true -> 0 <= pc s + 4 + disp < 4294967296 /\ (pc s + 4 + disp) mod 2 = 0) ->
+    sem_ref (IBcc cc disp) 4 s = Some s' ->
+    (i <- cs KI 2 ;; n <- cs KN 2 ;; ret (u8add i n)) (set_opc (pc s + 2) s') = Ok n (set_opc (pc s + 2) s') ->
+    step s = Ok n (set_opc (pc s + 2) s').
+Proof. exact step_bcc16_proof. Qed.
+
+(* JMP @aa:24 *)
+Theorem step_jmp_abs :
+  forall s w d w2 w3 w4 a n s',
+    bus_bytes_ok s -> fault s = false -> pc s mod 2 = 0 -> 0 <= pc s -> pc s + 4 < 4294967296 ->
+    mem_read SW s (pc s) = Some w -> mem_read SW s (pc s + 2) = Some d ->
+    decode_ref w d w2 w3 w4 = Some (IJmp (JAbs a), 4) ->
+    sem_ref (IJmp (JAbs a)) 4 s = Some s' ->
+    (i <- cs KI 2 ;; n <- cs KN 2 ;; ret (u8add i n)) (set_opc (pc s + 2) s') = Ok n (set_opc (pc s + 2) s') ->
+    step s = Ok n (set_opc (pc s + 2) s').
+Proof. exact step_jmp_abs_proof. Qed.
+
+(* BSR d:16 *)
+Theorem step_bsr16 :
+  forall s w d w2 w3 w4 disp n s',
+    cpu_ok s -> bus_bytes_ok s -> fault s = false -> pc s mod 2 = 0 -> 0 <= pc s -> pc s + 4 < 4294967296 ->
+    mem_read SW s (pc s) = Some w -> mem_read SW s (pc s + 2) = Some d ->
+    decode_ref w d w2 w3 w4 = Some (IBsr disp, 4) ->
+    0 <= pc s + 4 + disp < 4294967296 ->
+    sem_ref (IBsr disp) 4 s = Some s' ->
+    (i <- cs KI 2 ;; k <- csa KK 2 ((reg32 s 7 - 4) mod A24) ;; n <- cs KN 2 ;; ret (u8add (u8add i k) n)) (set_opc (pc s + 2) s') = Ok n (set_opc (pc s + 2) s') ->
+    step s = Ok n (set_opc (pc s + 2) s').
+Proof. exact step_bsr16_proof. Qed.
+
+(* JSR @aa:24 *)
+Theorem step_jsr_abs :
+  forall s w d w2 w3 w4 a n s',
+    cpu_ok s -> bus_bytes_ok s -> fault s = false -> pc s mod 2 = 0 -> 0 <= pc s -> pc s + 4 < 4294967296 ->
+    mem_read SW s (pc s) = Some w -> mem_read SW s (pc s + 2) = Some d ->
+    decode_ref w d w2 w3 w4 = Some (IJsr (JAbs a), 4) ->
+    sem_ref (IJsr (JAbs a)) 4 s = Some s' ->
+    (i <- cs KI 2 ;; k <- csa KK 2 ((reg32 s 7 - 4) mod A24) ;; n <- cs KN 2 ;; ret (u8add (u8add i k) n)) (set_opc (pc s + 2) s') = Ok n (set_opc (pc s + 2) s') ->
+    step s = Ok n (set_opc (pc s + 2) s').
+Proof. exact step_jsr_abs_proof. Qed.
+
 Print Assumptions cond_table.
 Print Assumptions call_rts_inverse.
 Print Assumptions bcc8_refines.
@@ -215,3 +262,7 @@ Print Assumptions step_bsr8.
 Print Assumptions step_jsr_ern.
 Print Assumptions step_rts.
 Print Assumptions step_jsr_ind.
+Print Assumptions step_bcc16.
+Print Assumptions step_jmp_abs.
+Print Assumptions step_bsr16.
+Print Assumptions step_jsr_abs.
